@@ -202,9 +202,30 @@ def scn(params):
     try:
         k = t.sim.k
         if not t.ok:
+            # a client that completed its negotiation ("Connection setup complete") and then ended by itself although the
+            # server kept answering did not fail to connect: it gave up a working tunnel
+            for c in getattr(t, "clients", []):
+                if not c.alive() and t.sim.health(c).startswith("exit:"):
+                    err = k.stderr_text(c, 1200)
+                    if "Connection setup complete" in err and not any(ev[1] == "send" and ev[2] == "srv" and b"BADIP" in bytes(ev[3]["data"])[-60:] for ev in k.log):
+                        out["violations"].append(("C02:process-exited:client:right-after-setup",
+                                                  "the client completed its negotiation after %.0f s and then exited by itself (%s) although every one of its queries had been answered"
+                                                  % (getattr(t, "handshake_s", 0), t.sim.health(c)),
+                                                  {"seed": seed, "cfg": cfg, "mode": mode, "stderr": err[-600:]}))
+                        return out
             out["inconclusive"] = t.why.split(":")[0]
             return out
         wit = {"seed": seed, "cfg": cfg, "mode": mode, "negotiated": t.neg}
+        if cfg.get("slow_start"):
+            out["stats"]["slow_start_runs"] = 1
+            out["stats"]["slow_start_handshake_s_max"] = 0
+            out["sets"]["slow_start_handshake_s"] = {int(getattr(t, "handshake_s", 0)) // 5 * 5}
+            # iodined expires a session 60 s after its last V/L/ping/data; a negotiation that takes longer than that after the
+            # login runs into it (BADIP) - a limit of the design, not what this scenario is about
+            for ev in k.log:
+                if ev[1] == "send" and ev[2] == "srv" and b"BADIP" in bytes(ev[3]["data"])[-60:]:
+                    out["inconclusive"] = "session-expired-during-slow-start"
+                    return out
         cname = t.clients[0].name
         dead = [(p.name, t.sim.health(p)) for p in (t.srv, t.clients[0]) if not p.alive()]
         if dead:
@@ -336,6 +357,11 @@ def run(ctx):
         cfg = tunnelscn.gen_config(rng, i + ctx.seed, faults=(mode != "clean"), nclients_max=1)
         if mode == "clean" and i % 4 == 0 and not cfg["raw"]:
             cfg["nclients"] = 2           # a bystander session exchanging client-to-client packets with the judged one
+        if mode == "recover" and i % 12 == 5:
+            # the start-up itself is slow: about a second each way while the client negotiates (which then takes a minute or
+            # so), after that the scenario goes on as usual
+            cfg.update(slow_start=rng.choice([1100000, 1120000, 1150000]), qtype="NULL", raw=False, interval=None, pred=False,
+                       m=None, downenc=None, lazy=1, M=rng.choice([200, 255]))
         plist.append({"idx": i, "seed": ctx.seed * 100000 + i, "cfg": cfg, "mode": mode})
     if ctx.replay:
         plist = [ctx.replay["witness"]["params"]]
